@@ -8,6 +8,7 @@ ASSUMPTIONS = [
     '0.69314718056 is taken as ln 2',
     'the bracket "within one time step of the growth law" follows from one volume step per delta (clause delta-clock-advances-only-when-it-fires) and the step-law lemmas by induction over steps (argument)',
     'DelayVolumeSSASimulator is under contract too (volume step exactly when the delta clock fires)',
+    'the delta clock is aligned with the interface\'s initial time (never behind the current time, at most one delta ahead): invariant of both volume simulators, under the precondition that the time grid does not start before the interface\'s initial time',
 ]
 TRUSTED = []
 EXPLANATION = ('R_vol verified on the real VolumeSSASimulator loop body (volume rules first, volume-scaled propensities, delta clock, volume step exactly when the clock fires, '
